@@ -380,6 +380,8 @@ func runC16(c *Ctx) {
 	c.Lap("processes")
 	c16Faults(c)
 	c.Lap("faults")
+	c16Driver(c, rng.Fork())
+	c.Lap("driver-model")
 	c16Scanner(c, rng, cases)
 	c.Lap("scanner-model")
 }
@@ -549,11 +551,18 @@ func c16LoadReplay(path string) []c16Case {
 		Replay struct {
 			Case   *c16Case `json:"case"`
 			BufHex *string  `json:"buf_hex"` // scanner-correspondence replays (c16_scan.go)
+			Scen   *struct {
+				Args []string `json:"args"`
+			} `json:"scenario"` // file-driver replays (c16_driver.go)
 		} `json:"replay"`
 	}
 	b, err := os.ReadFile(path)
 	if err != nil {
 		panic(err)
+	}
+	if err := jsonUnmarshal(b, &doc); err == nil && doc.Replay.Case == nil && doc.Replay.Scen != nil && len(doc.Replay.Scen.Args) > 0 {
+		// re-run by c16Driver; the compiler itself only sees a harmless file
+		return []c16Case{{Src: "package main\n\nlet f () = 1\n", Kind: "driver-replay"}}
 	}
 	if err := jsonUnmarshal(b, &doc); err != nil || (doc.Replay.Case == nil && doc.Replay.BufHex == nil) {
 		panic("replay file has no case")
